@@ -83,7 +83,7 @@ type res struct {
 	Stage  string `json:"stage"`
 	Kind   string `json:"kind"` // ok | error | panic | hang | lost
 	Detail string `json:"detail,omitempty"`
-	Site   string `json:"site,omitempty"` // first helm function on the panicking stack (panic) / fatal error kind (fatal)
+	Site   string `json:"site,omitempty"`   // first helm function on the panicking stack (panic) / fatal error kind (fatal)
 	PClass string `json:"pclass,omitempty"` // class of the panic value (nil-deref, type-assertion, ...)
 }
 
@@ -231,15 +231,14 @@ func (g *guard) run(stage string, fn func() error) res {
 // ---------------------------------------------------------------------------
 // per-process environment
 
-
 type env struct {
-	c       *core.Ctx
-	g       *guard
-	scratch string
-	shared  string  // directory shared by all workers of one run ("" outside a run)
-	remote  *remote // case server (exploration); nil = execute in-process
-	seq     int
-	known   map[string][]badSet // entry -> deviation sets known to kill or hang the process
+	c           *core.Ctx
+	g           *guard
+	scratch     string
+	shared      string  // directory shared by all workers of one run ("" outside a run)
+	remote      *remote // case server (exploration); nil = execute in-process
+	seq         int
+	known       map[string][]badSet // entry -> deviation sets known to kill or hang the process
 	lastRefresh time.Time
 	start       time.Time
 	capped      bool
